@@ -111,7 +111,15 @@ def check(tier):
         rep.obligation("Props/C12.v: " + t, ok)
     rep.cov["print_assumptions"] = "Closed under the global context x%d" % log.count("Closed under the global context") if ok else "n/a"
 
-    texts = [gen_spec(rng) for _ in range(80 if tier == "quick" else 2500)]
+    # well-formed specifications whose rule handles are easily confused: bodies and heads whose names run together to the same text
+    # (`a bc` / `ab c`, `ea = b` / `e = ab`), in one level, as alternatives of one handle, and in two levels
+    rules_ = 'start = e ea;\ne = a bc | ab c | abc | "x";\nea = b | "y";\na = "a";\nb = "b";\nc = "c";\nab = "ab";\nbc = "bc";\nabc = "abc";\n'
+    fixtures = ['grammar g;\n@left <e = a bc> <e = ab c>;\n' + rules_,
+                'grammar g;\n@left <e = a bc | ab c>;\n@right <e = abc>;\n' + rules_,
+                'grammar g;\n@left <e = a bc>;\n@right <e = ab c>;\n@none <e = abc>;\n' + rules_,
+                'grammar g;\n@left <ea = b>;\n@right <e = abc>;\n' + rules_,
+                'grammar g;\n' + rules_ + '@right <e = ab c> "x";\n@left "y" <e = a bc>;\n']
+    texts = fixtures + [gen_spec(rng) for _ in range(80 if tier == "quick" else 2500)]
     texts = [t for t in dict.fromkeys(texts) if S.printable(t)]
     res = C.hook_map([{"op": "spec", "text": t} for t in texts], timeout_each=20)
     cases, dist = [], {"accepted": 0, "rejected": 0, "levels": 0, "rule_handles": 0}
@@ -157,6 +165,10 @@ def check(tier):
         if ok:
             rep.violation("cases", {"theorem": "gen/cases_C12_*.v does not compile", "log": cerr[-3000:]}, no_input=True)
         return rep.finish()
+    refused = [(t, e) for t, e in rejected if t in fixtures]
+    rep.obligation("the %d well-formed specifications with easily confused rule handles are accepted" % len(fixtures), not refused)
+    for t, e in refused[:2]:
+        rep.failure("levels", {"levels-rejected"}, {"input_text": t, "reported": str(e)[:400], "why": "every handle sits in one level only; the specification is well-formed"})
     rep.obligation("correspondence: Spec.Precedences == Coq model on %d specifications (%d levels)" % (len(cases), dist["levels"]), not bad)
     rep.obligation("model == declarative reading of the directives; production handles are grammar productions", not decl_bad)
     for i in bad[:3]:
